@@ -31,8 +31,38 @@ Verdict(r) ==
                      THEN "D-C14-1: " \o where
                      ELSE "value: " \o where
 
+(* Huge dynamic range (r.fn = "dyn"): the call was x = 2^60 * xb + x (x = 0 wherever xb # 0) and the    *)
+(* harness split every result element v into v = 2^60 * valb + val.  2^60 is not a TLC integer, but by  *)
+(* the linearity laws (checked by MC_IdlBuiltins) the specified result is 2^60 * F(xb) + F(x): valb must *)
+(* be F(xb) everywhere, and wherever no huge sample is in reach (F(|xb|) = 0, the weights being          *)
+(* non-negative) val must be F(x) exactly - a small window next to a huge sample loses nothing.          *)
+DynVerdict(r) ==
+  LET s == Rats(r.x)
+      b == Rats(r.xb)
+      shape == Tup(r.shape)
+      d == Tup(r.d)
+  IN IF r.of \notin {"smooth", "rebin"} \/ ~Defined(r.of, s, shape, r.w, r.flag, d) \/ ~Defined(r.of, b, shape, r.w, r.flag, d)
+        \/ (\E k \in DOMAIN s : s[k] # Zero /\ b[k] # Zero) \/ (r.of = "rebin" /\ ~RebinAccepts(shape, d))
+     THEN "undefined"
+     ELSE LET es == Expected(r.of, s, shape, r.w, r.flag, d)
+              eb == Expected(r.of, b, shape, r.w, r.flag, d)
+              ea == Expected(r.of, AbsSeq(b), shape, r.w, r.flag, d)
+              gs == Rats(r.ret.val)
+              gb == Rats(r.ret.valb)
+              Txt(q) == ToString(q[1]) \o "/" \o ToString(q[2])
+          IN IF r.ret.err THEN "raised"
+             ELSE IF Tup(r.ret.shape) # es.shape \/ Len(gs) # Len(es.val) THEN "shape"
+             ELSE IF \E k \in DOMAIN gb : ~r.ret.exb[k] \/ gb[k] # eb.val[k]
+                  THEN LET k == CHOOSE j \in DOMAIN gb : ~r.ret.exb[j] \/ gb[j] # eb.val[j]
+                       IN "value: element " \o ToString(k - 1) \o " is " \o Txt(gb[k]) \o " * 2^60, specified " \o Txt(eb.val[k]) \o " * 2^60"
+             ELSE IF \E k \in DOMAIN gs : ea.val[k] = Zero /\ (~r.ret.ex[k] \/ gs[k] # es.val[k])
+                  THEN LET k == CHOOSE j \in DOMAIN gs : ea.val[j] = Zero /\ (~r.ret.ex[j] \/ gs[j] # es.val[j])
+                       IN "value: element " \o ToString(k - 1) \o " (no huge sample in its reach) is "
+                          \o (IF r.ret.ex[k] THEN Txt(gs[k]) ELSE "not a nearby rational") \o ", specified " \o Txt(es.val[k])
+             ELSE ""
+
 Init == /\ i \in 1 .. Len(Recs)
-        /\ why = Verdict(Recs[i])
+        /\ why = IF Recs[i].fn = "dyn" THEN DynVerdict(Recs[i]) ELSE Verdict(Recs[i])
         /\ ok = (why = "")
 Next == UNCHANGED <<i, ok, why>>
 =============================================================================
